@@ -9,8 +9,8 @@
    shows that scan_loop with enough fuel returns a result related by Run
    (ghost instrumentation proved faithful once); every property is then an
    induction on Run. *)
-From PP Require Import Base.Bytes Base.BytesX Base.GoResult Model.Types Model.Lines Model.Reader Model.FuncInit Model.Scan Model.Names Model.ScanSnapshot.
-From PP Require Import Spec.ReaderSpec Proofs.ReaderBase Proofs.ScanErrShape Proofs.ReaderProofs Proofs.ScanInv Proofs.LoopBase.
+From PP Require Import Base.Bytes Base.BytesX Base.Num Base.GoResult Model.Types Model.Lines Model.Reader Model.FuncInit Model.Scan Model.Names Model.ScanSnapshot.
+From PP Require Import Spec.ReaderSpec Spec.LoopSpec Proofs.ReaderBase Proofs.ScanErrShape Proofs.ReaderProofs Proofs.ScanInv Proofs.LoopBase.
 From Coq Require Import String.
 
 (* ------------------------------------------------------------------ *)
@@ -37,7 +37,6 @@ Qed.
 (* ------------------------------------------------------------------ *)
 (* 2. the instrumented big-step relation                                *)
 
-Inductive kind := KConsumed | KForwarded | KRejected.
 
 Definition classify (l : bool) (ss' : sstate) : kind :=
   if l then KConsumed else if state_eqb (st ss') looking then KForwarded else KRejected.
@@ -349,8 +348,6 @@ Proof.
   unfold o_ls in IH. rewrite IH, next_lines. lia.
 Qed.
 
-Definition noreads (t : list event) : list event :=
-  filter (fun e => match e with EvRead _ _ => false | _ => true end) t.
 
 Lemma noreads_app a b : noreads (a ++ b) = noreads a ++ noreads b.
 Proof. apply filter_app. Qed.
@@ -485,13 +482,6 @@ Qed.
 (* ------------------------------------------------------------------ *)
 (* 6. result-level vocabulary: the handled lines with their kind        *)
 
-Definition k_fwd (x : bytes * kind) : bool := match snd x with KForwarded => true | _ => false end.
-Definition k_consumed (x : bytes * kind) : bool := match snd x with KConsumed => true | _ => false end.
-Definition k_handled (x : bytes * kind) : bool := match snd x with KRejected => false | _ => true end.
-Definition hl_events (x : bytes * kind) : list event :=
-  EvLine (fst x) :: (if k_fwd x then [EvWrite (fst x)] else []).
-Definition complete_line (d : bytes) : Prop := exists a, d = a ++ [LF] /\ ~ In LF a.
-Definition bytes_of (hl : list (bytes * kind)) : bytes := List.concat (map fst hl).
 
 Definition hl_of (log : list item) : list (bytes * kind) := map (fun it => (it_line it, it_kind it)) log.
 
@@ -688,25 +678,6 @@ Qed.
 (* ------------------------------------------------------------------ *)
 (* 7. B2: no dump, no race report: the identity                         *)
 
-(* the EOL trimming of scan in state [looking]: an unterminated line is not
-   looked at *)
-Definition eol_trim (line : bytes) : option bytes :=
-  match strip_suffix [CR; LF] line with
-  | Some t => Some t
-  | None => strip_suffix [LF] line
-  end.
-
-(* the tests of scan in state [looking] (empty indentation prefix): the line
-   is neither a goroutine header nor the race report separator *)
-Definition not_start_line (line : bytes) : bool :=
-  match eol_trim line with
-  | None => true
-  | Some t =>
-      match try_header ss0 t with
-      | Some _ => false
-      | None => negb (beq t race_header_footer)
-      end
-  end.
 
 Lemma not_start_scan line : not_start_line line = true -> scan ss0 line = Ok (ss0, false, None).
 Proof.
@@ -726,7 +697,6 @@ Proof.
   destruct (strip_suffix [LF] line) as [t|]; [now apply Hbody|reflexivity].
 Qed.
 
-Definition no_start (s : bytes) : Prop := forallb not_start_line (lines s) = true.
 
 Lemma step_nodump ls it r' src' :
   line_step ls it r' src' -> l_ss ls = ss0 ->
@@ -1131,6 +1101,81 @@ Proof.
   inversion Hf. subst. cbn [last_state]. now apply IH.
 Qed.
 
+Lemma race_op_header_grows s m first t s' e :
+  race_op_header s m first t = Some (Ok (s', true, e)) -> goroutines s' <> [].
+Proof.
+  unfold race_op_header. destruct m as [[[w addr] ds]|]; [|discriminate].
+  intros H. injection H as H.
+  destruct (parse_uint addr); [|discriminate H].
+  destruct (atou ds); [|discriminate H].
+  destruct (first && _); [discriminate H|].
+  injection H as <- _. cbn [goroutines]. apply app1_ne.
+Qed.
+
+(* the lines consumed while no goroutine exists: K1 *)
+Lemma scan_consumed_nogoroutine s line s' e :
+  Inv s -> goroutines s = [] -> state_eqb (st s) done = false ->
+  scan s line = Ok (s', true, e) -> goroutines s' = [] ->
+  (st s = looking /\ trim_eol line = race_header_footer) \/
+  (st s = gotRaceHeader1 /\ trim_eol line = race_header).
+Proof.
+  intros HI Hg Hnd Hscan Hg'.
+  assert (Hst : st s = looking \/ st s = gotRaceHeader1 \/ st s = gotRaceHeader2).
+  { destruct (st s) eqn:E; try tauto; try discriminate Hnd;
+      exfalso; apply (Inv_goroutines_ne s HI); congruence. }
+  assert (Hp : sprefix s = []).
+  { unfold Inv in HI. destruct Hst as [E|[E|E]]; rewrite E in HI; apply HI. }
+  rewrite scan_unfold in Hscan. unfold trim_eol, eol_trim. unfold scan_tr in Hscan.
+  assert (Hbody : forall t, scan_body s t = Ok (s', true, e) ->
+            (st s = looking /\ t = race_header_footer) \/ (st s = gotRaceHeader1 /\ t = race_header)).
+  { intros t Hb. unfold scan_body in Hb. destruct Hst as [E|[E|E]]; rewrite E in Hb.
+    - left. split; [exact E|]. unfold header_or_end in Hb.
+      destruct (try_header s t) as [s1|] eqn:Hh.
+      + exfalso. destruct (try_header_shape _ _ _ Hh) as (g & ind & -> & _).
+        injection Hb as <- _. cbn [goroutines] in Hg'. now apply (app1_ne _ (goroutines s) g).
+      + rewrite E in Hb. change (state_eqb looking looking) with true in Hb. cbn [andb] in Hb.
+        destruct (beq t race_header_footer) eqn:Hbq; [now apply beq_eq|discriminate Hb].
+    - right. split; [exact E|].
+      destruct (beq t race_header) eqn:Hbq; [now apply beq_eq|discriminate Hb].
+    - exfalso. destruct (race_op_header s (match_race_op t) true t) as [r|] eqn:Hr; [|discriminate Hb].
+      subst r. now apply (race_op_header_grows _ _ _ _ _ _ Hr). }
+  destruct (strip_suffix [CR; LF] line) as [t|].
+  { rewrite scan_pre_noprefix in Hscan by exact Hp. now apply Hbody. }
+  destruct (strip_suffix [LF] line) as [t|].
+  { rewrite scan_pre_noprefix in Hscan by exact Hp. now apply Hbody. }
+  destruct (state_eqb (st s) looking || state_eqb (st s) done); [discriminate Hscan|].
+  rewrite scan_pre_noprefix in Hscan by exact Hp. now apply Hbody.
+Qed.
+
+Lemma run_notdone ls log out : Run ls log out ->
+  Forall (fun it => state_eqb (st (it_pre it)) done = false) log.
+Proof.
+  assert (Hs : forall ls0 it r' src', line_step ls0 it r' src' -> state_eqb (st (it_pre it)) done = false).
+  { clear. intros ls it r' src' (H1 & H2 & _). now rewrite H2. }
+  induction 1 as [ls Hd|ls x r' src' evs Hd HRL|ls it r' src' Hst Hk|ls it r' src' x Hst Hk He1 He
+                 |ls it r' src' log out Hst Hk He1 He Hrun IH];
+    try (constructor; [apply (Hs _ _ _ _ Hst)|]); try constructor. exact IH.
+Qed.
+
+(* K1: while no goroutine exists, the only lines withheld are the race report
+   separator (in state looking) and the line "WARNING: DATA RACE" after it *)
+Lemma pre_region log : forall s, Forall item_ok log ->
+  Forall (fun it => state_eqb (st (it_pre it)) done = false) log ->
+  linked s log -> goroutines s = [] -> Forall (fun it => goroutines (it_post it) = []) log ->
+  Forall (fun it => it_kind it = KConsumed ->
+            trim_eol (it_line it) = race_header_footer \/ trim_eol (it_line it) = race_header) log.
+Proof.
+  induction log as [|it log IH]; intros s Hok Hnd Hl Hg Hall; [constructor|].
+  inversion Hok as [|? ? Hit Hok']. inversion Hnd as [|? ? Hnd1 Hnd']. inversion Hall as [|? ? Hg1 Hall'].
+  subst. destruct Hl as [Hpre Hl]. constructor; [|now apply (IH (it_post it))].
+  intros Hk. destruct Hit as (_ & _ & Hi & Hs & _ & _ & Hc).
+  assert (Hfl : it_flag it = true).
+  { rewrite Hc in Hk. unfold classify in Hk. destruct (it_flag it); [reflexivity|].
+    destruct (state_eqb (st (it_post it)) looking); discriminate Hk. }
+  rewrite Hfl in Hs. rewrite <- Hpre in Hg.
+  destruct (scan_consumed_nogoroutine _ _ _ _ Hi Hg Hnd1 Hs Hg1) as [[_ E]|[_ E]]; tauto.
+Qed.
+
 Theorem dump_contiguous : forall na B sc f res,
   scan_snapshot na (mkSource B sc f) = Ok res ->
   exists pre dump : list (bytes * kind),
@@ -1139,6 +1184,9 @@ Theorem dump_contiguous : forall na B sc f res,
     (* everything forwarded comes from the region before the dump ... *)
     fwd res = bytes_of (filter k_fwd pre) /\
     Forall (fun x => snd x <> KForwarded) dump /\
+    (* ... where the only lines withheld are those of finding K1 ... *)
+    Forall (fun x => snd x = KConsumed ->
+              trim_eol (fst x) = race_header_footer \/ trim_eol (fst x) = race_header) pre /\
     (* ... during which no goroutine exists ... *)
     (exists s, scan_lines ss0 (map fst pre) = Ok s /\ goroutines s = [] /\
        (* ... and the dump region starts with the line that creates the first one *)
@@ -1152,6 +1200,12 @@ Proof.
   pose proof (run_fwd _ _ _ Hrun) as Hf.
   pose proof (run_events _ _ _ Hrun) as He.
   pose proof (run_items _ _ _ Hrun) as Hi.
+  pose proof (run_notdone _ _ _ Hrun) as Hnd.
+  assert (Hpre_hl : forall l, Forall (fun it => it_kind it = KConsumed ->
+              trim_eol (it_line it) = race_header_footer \/ trim_eol (it_line it) = race_header) l ->
+            Forall (fun x : bytes * kind => snd x = KConsumed ->
+              trim_eol (fst x) = race_header_footer \/ trim_eol (fst x) = race_header) (hl_of l)).
+  { intros l Hfl. unfold hl_of. apply Forall_map. exact Hfl. }
   destruct (run_linked _ _ _ Hrun) as [Hl Hls].
   pose proof (suffix_tail na _ _ _ Hrun) as Hsfx.
   unfold lstream, stream, init_ls in *.
@@ -1167,8 +1221,9 @@ Proof.
     destruct (goroutines (last_state ss0 log)); split; intros F; try reflexivity; discriminate F. }
   destruct (first_goroutine log) as [Hall|(l1 & it & l2 & E & Hall & Hne)].
   - exists (hl_of log), []. destruct (Hcommon log [] (eq_sym (app_nil_r _))) as [C1 C2].
-    split; [exact C1|]. split; [exact C2|]. split; [|split; [constructor|split]].
+    split; [exact C1|]. split; [exact C2|]. split; [|split; [constructor|split; [|split]]].
     + rewrite hl_fwd_of. destruct out as [[a err] sfx]. exact Hf.
+    + apply Hpre_hl. now apply (pre_region log ss0).
     + exists (last_state ss0 log). unfold hl_of. rewrite map_map. cbn [fst].
       split; [now apply scan_lines_log|]. split; [now apply last_state_empty|]. intros x d F. discriminate F.
     + split; [intros _|reflexivity]. apply Hsnap. now apply last_state_empty.
@@ -1177,7 +1232,7 @@ Proof.
     pose proof Hl as Hl'. rewrite E in Hl'. apply linked_app in Hl'. destruct Hl' as [Hl1 [Hpre Hl2]].
     pose proof Hi as Hi'. rewrite E in Hi'. apply Forall_app in Hi'. destruct Hi' as [Hi1 Hi2].
     inversion Hi2 as [|? ? Hit Hi3]. subst.
-    split; [exact C1|]. split; [exact C2|]. split; [|split; [|split]].
+    split; [exact C1|]. split; [exact C2|]. split; [|split; [|split; [|split]]].
     + assert (Hz : List.concat (map fwd_bytes (it :: l2)) = []).
       { assert (Hnf' : Forall (fun it' => it_kind it' <> KForwarded) (it :: l2)).
         { constructor; [|exact Hnf]. intros F. destruct (fwd_item _ Hit F) as (_ & G & _). contradiction. }
@@ -1188,6 +1243,7 @@ Proof.
       rewrite Hf, map_app, concat_app, Hz, app_nil_r. reflexivity.
     + unfold hl_of. apply Forall_map. cbn [snd]. constructor; [|exact Hnf].
       intros F. destruct (fwd_item _ Hit F) as (_ & G & _). contradiction.
+    + apply Hpre_hl. apply Forall_app_l in Hnd. now apply (pre_region l1 ss0).
     + exists (last_state ss0 l1). unfold hl_of at 1. rewrite map_map. cbn [fst].
       split; [now apply scan_lines_log|]. split; [now apply last_state_empty|].
       intros x d Ex. cbn [hl_of map] in Ex. injection Ex as <- _. cbn [fst].
@@ -1197,4 +1253,18 @@ Proof.
       rewrite last_state_app in Hsn. cbn [last_state] in Hsn.
       destruct (log_mono _ _ Hi3 Hl2) as [Hm _]. rewrite Hsn in Hm.
       destruct (goroutines (it_post it)); [contradiction|cbn in Hm; lia].
+Qed.
+
+(* a line not followed by its Write is a consumed line or the final rejected one *)
+Theorem unwritten_lines : forall na B sc f res,
+  scan_snapshot na (mkSource B sc f) = Ok res ->
+  exists body last : list (bytes * kind),
+    noreads (trace res) = flat_map hl_events (body ++ last) /\
+    Forall (fun x => snd x <> KRejected) body /\ List.length last <= 1.
+Proof.
+  intros na B sc f res H.
+  destruct (partition na B sc f res H) as (body & last & P1 & _ & _ & _ & P5 & P6).
+  exists body, last. split; [exact P1|]. split.
+  - apply (Forall_impl _ (fun x (Hx : complete_line (fst x) /\ snd x <> KRejected) => proj2 Hx) P5).
+  - destruct P6 as [->|(d & k & -> & _)]; cbn [List.length]; lia.
 Qed.
